@@ -5,7 +5,8 @@
     [unknown_chan_sanity]) is GENERATED from the Rust source by tools/rs2v on each run. *)
 Require Import LdkV.Prim.U64 LdkV.Prim.Rs2vLib LdkV.Gen.Consts LdkV.Gen.CltvChecks LdkV.Gen.CfgChecks
   LdkV.Gen.FwdChecks LdkV.Model.FwdAdmission LdkV.Proofs.C02Admission
-  LdkV.Model.Fwd LdkV.Proofs.C02Fwd.
+  LdkV.Model.Fwd LdkV.Proofs.C02Fwd
+  LdkV.Gen.ChanUtilsFees LdkV.Gen.TxBuilder LdkV.Proofs.C02Dust.
 Open Scope Z_scope.
 
 (** The per-config check accepts exactly when the offered amount plus the advertised fee on it fits
@@ -192,4 +193,33 @@ Example C02_model_fail_paths :
   up (m (run init [LForward; LCloseD; LChainTimeout])) = UFailed /\
   up (m (run init [LForward; LCloseD; LChainPreimage false; LCrash false false false])) = UClaimInFlight /\
   up (m (run init [LForward; LFailMsg; LCommitFail])) = UCommitted.
+Proof. vm_compute. repeat split. Qed.
+
+(** Part 3: dust exposure. The four comparisons are the anchored, generated conditions of
+    [validate_update_fee] / [can_accept_incoming_htlc] (holder-commitment and counterparty-commitment
+    exposure each against [max_dust_htlc_exposure]); the exposures are those the generated
+    [get_dust_exposure_stats] computes. A feerate update / inbound HTLC that passes leaves the total of
+    the HTLCs without an output within the limit on BOTH commitments. *)
+Theorem C02_dust_bound : forall htlcs f lim dl cdl ct mx,
+  update_fee_dust_ok (fst (get_dust_exposure_stats true htlcs f lim dl ct))
+                     (fst (get_dust_exposure_stats false htlcs f lim cdl ct)) mx = true ->
+  htlc_dust_total true htlcs (get_dust_buffer_feerate f) dl ct <= mx /\
+  htlc_dust_total false htlcs (get_dust_buffer_feerate f) cdl ct <= mx.
+Proof. exact dust_bound_update_fee. Qed.
+
+Theorem C02_dust_bound_accept : forall htlcs f lim dl cdl ct mx,
+  accept_htlc_dust_ok (fst (get_dust_exposure_stats true htlcs f lim dl ct))
+                      (fst (get_dust_exposure_stats false htlcs f lim cdl ct)) mx = true ->
+  htlc_dust_total true htlcs (get_dust_buffer_feerate f) dl ct <= mx /\
+  htlc_dust_total false htlcs (get_dust_buffer_feerate f) cdl ct <= mx.
+Proof. exact dust_bound_accept. Qed.
+
+(** Non-vacuity: two 3 800 sat HTLCs offered by the node, feerate raised to 2530 sat/kw: no dust on its
+    own commitment, 7.6M msat on the counterparty's; a 5M msat limit refuses, a 8M msat limit accepts. *)
+Example C02_dust_band :
+  let ct := mkChannelTypeFeatures false false in
+  let hs := [mkHTLCAmountDirection true 3800000; mkHTLCAmountDirection true 3800000] in
+  let l := fst (get_dust_exposure_stats true hs 2530 None 354 ct) in
+  let r := fst (get_dust_exposure_stats false hs 2530 None 354 ct) in
+  l = 0 /\ r = 7600000 /\ update_fee_dust_ok l r 5000000 = false /\ update_fee_dust_ok l r 8000000 = true.
 Proof. vm_compute. repeat split. Qed.
